@@ -228,6 +228,15 @@ def _emit(acc, case, nontrivial):
 
 
 def run_shard(shard, acc):
+    # one process walks the same slice of segments through every version, in ascending or descending order: whatever the
+    # library remembers from one version must not leak into the next
+    order = T.VERSIONS if shard['k'] % 2 == 0 else T.VERSIONS[::-1]
+    for v in order:
+        segs = list(T.segments(v))[shard['k']::shard['of']]
+        _run_version(dict(shard, v=v, names=segs, seed=shard['seed'] + len(v) + T.VERSIONS.index(v)), acc)
+
+
+def _run_version(shard, acc):
     Segment, Field, Component, Message, CNF, CNV = _imports()
     v, rnd = shard['v'], random.Random(shard['seed'])
     thorough = shard['thorough']
@@ -326,11 +335,6 @@ def run_shard(shard, acc):
 
 
 def plan(tier, seed):
-    shards = []
     thorough = tier == 'thorough'
-    for v in T.VERSIONS:
-        segs = list(T.segments(v))
-        n = 6 if thorough else 2
-        for c in range(n):
-            shards.append({'v': v, 'names': segs[c::n], 'seed': seed * 1000 + c * 17 + len(v), 'thorough': thorough})
-    return shards
+    n = 64 if thorough else 16
+    return [{'k': k, 'of': n, 'seed': seed * 1000 + k * 17, 'thorough': thorough} for k in range(n)]
